@@ -3,6 +3,11 @@
 import json, subprocess
 
 CLAIMED = {
+ "C01": dict(level="exploration",
+   text="Differential testing of all four channels in both directions against an independent codec (spec.rs: explicit offsets, literal numbers): every Frontend operation with generated arguments x NEED_REPLY x acknowledged-feature configuration (request bytes, descriptors on byte 0 only and identical to the ones passed, conforming replies decoded to the encoded values), every request code against the real BackendReqHandler (handler arguments and descriptor identities vs encoded values; reply/ack bytes for scripted results), the five back-end-initiated requests through Backend proxy and FrontendReqHandler incl. acknowledgement values, the twelve GPU requests and four GPU replies; plus an enumeration of every config payload length (every 7th in quick, all 4084 in thorough) and every region count 1..=32. About 70k generated messages in quick.",
+   note="Trusted: spec.rs is hand-transcribed from the vhost-user / vhost-user-gpu specifications (the sandbox has no copy of the text), refpred.rs for 'the API must reject locally', fstat/fdinfo identities for 'same open file'. Spec-silent bytes (padding of the inflight description, payload of the SET_LOG_BASE reply) are masked. Messages the crate does not implement are only checked to be rejected (C04/C05).",
+   technique="differential property testing (proptest + enumeration) of real endpoints against an independent specification codec via a raw socket peer",
+   ref="DESIGN.md section 3, C01"),
  "C04": dict(level="exploration",
    text="Model-based testing of the real BackendReqHandler: every word up to depth 3 (quick) / 4 (thorough) over a 21-symbol reduced alphabet x {protocol features offered or not} is executed exhaustively, plus thousands of random histories (length <= 12) over all 44 request codes with generated bodies, NEED_REPLY flags and scripted handler outcomes; the bytes the server writes are compared frame by frame with a reference protocol model and a sentinel request proves exact consumption. Histories are an unbounded space, so bounded-exhaustive + random exploration is the level claimed.",
    note="Trusted: spec.rs (request table and layouts transcribed from the vhost-user specification), the protocol model in props/c04.rs. Stated tolerances: the SET_PROTOCOL_FEATURES that flips REPLY_ACK may or may not be acked; requests rejected before the handler may produce nothing or one non-zero ack; SET_LOG_BASE reply payload and the 4 padding bytes of the inflight description are spec-silent.",
